@@ -21,6 +21,11 @@
  *   L<first>,<n>,<K>,<tail>  a singly linked chain of n nodes first..first+n-1 of kind K (R Ref, B Box, S struct,
  *                    U heap Tuple cons cell, V user type with Mark): node first points to <tail> (0 = nothing), node i
  *                    to node i-1; only the head first+n-1 stays in a stack slot
+ *   V<id><k>=<a>[,<b>]  heap VIEW object id over the container(s) a (and b), allocated with new(): k = z Zip(a, b),
+ *                    l Slice(a, 0, 3), m Map(a, fn), f Filter(a, fn), r Range(7) (no input).  The view's internal objects
+ *                    are managed objects too and take the following ids: Zip: id+1 = its `iters` Tuple (items a, b),
+ *                    id+2 = its `values` Tuple; Slice: id+1 = its Range, id+2 = that Range's Int; Range: id+1 = its Int
+ *   O<id>            use the view: iterate it completely (a freed input shows as an exception or a crash)
  *   B<c>,<m>,<n>,<first>  bulk build: container c receives n FRESH probe structs (ids first..first+n-1) that are
  *                    allocated WHILE the container operation consumes its argument and are referenced from
  *                    nowhere else (no stack slot): m = c: concat(c, map(range(n), make)) for A L U (the iterable
@@ -32,7 +37,8 @@
  *   I<id>,<k>=<t>    insert: A L U push (k ignored); T E set key k -> Ref to t; Y Z set key Ref to t -> k
  *   D<id>,<k>        remove: A L U pop_at index k; T E rem key k; Y Z rem key Ref to node k
  *   K+<id> K-<id>    stack slot holds / drops the pointer
- *   T+<s>=<id> T-<s> thread-local entry "k<s>" set / removed
+ *   T+<s>=<id> T-<s> thread-local entry set / removed; key "k<s>", slots 20..29 = "__x" "_" "" a 200 character key
+ *                    "__session" "__" "__GC2" "__Exceptions" "__G" and a key with spaces
  *   X<id>            explicit del(p); the stack slot is cleared
  *   G                forced collection GC_Mark; GC_Sweep, then observation
  *   H                the same with the stack scan narrowed to the collecting frames (gc->bottom
@@ -227,6 +233,39 @@ static void __attribute__((noinline)) op_chain(long first, long n, char k, long 
   }
 }
 
+/* views */
+static var view_fn(var x) { return x; }
+static var view_true(var x) { return x; }
+static var VIEWFN;     /* a raw Function object (not managed): no edge */
+static void reg_node(long id, var p, char k) {
+  ensure(id);
+  LED[id] = (uintptr_t)p ^ MASK; KIND[id] = k; DEAD[id] = 0; ROOTF[id] = 0;
+  if (id > MAXID) MAXID = id;
+  hput((uintptr_t)p ^ MASK, id);
+}
+static void __attribute__((noinline)) op_view(long id, char k, long a, long b) {
+  var pa = nptr(a), pb = nptr(b), p = NULL;
+  if (!VIEWFN) { VIEWFN = alloc_raw(Function); ((struct Function*)VIEWFN)->func = view_fn; }
+  switch (k) {
+    case 'z': p = new(Zip, pa, pb); reg_node(id, p, 'P');
+              reg_node(id + 1, ((struct Zip*)p)->iters, 'U'); reg_node(id + 2, ((struct Zip*)p)->values, 'U'); break;
+    case 'l': p = new(Slice, pa, $I(0), $I(3)); reg_node(id, p, 'P');
+              reg_node(id + 1, ((struct Slice*)p)->range, 'P');
+              reg_node(id + 2, ((struct Range*)((struct Slice*)p)->range)->value, 'I'); break;
+    case 'r': p = new(Range, $I(7)); reg_node(id, p, 'P'); reg_node(id + 1, ((struct Range*)p)->value, 'I'); break;
+    case 'm': p = new(Map, pa, VIEWFN); reg_node(id, p, 'P'); break;
+    case 'f': p = new(Filter, pa, VIEWFN); reg_node(id, p, 'P'); break;
+    default: note("badview"); return;
+  }
+  keep_add(id);
+  p = pa = pb = NULL;
+}
+static void __attribute__((noinline)) op_use(long id) {
+  var p = nptr(id); long cnt = 0;
+  foreach (x in p) { cnt++; if (cnt > 100000) { note("viewrunaway"); break; } }
+  p = NULL;
+}
+
 /* element factory of the bulk operations: called by Map's iterator once per element */
 static long BNEXT, BLEFT;
 static var bulk_make(var args) {
@@ -291,8 +330,26 @@ static void __attribute__((noinline)) op_remove(long id, long k) {
   p = NULL;
 }
 
+/* thread-local keys of every shape: slots 20.. stand for legal keys that look like the runtime's own ("__GC",
+ * "__Exception" themselves cannot be used: the runtime keeps its collector and exception state under them) */
+static void tls_name(long slot, char* name, size_t n) {
+  switch (slot) {
+    case 20: snprintf(name, n, "__x"); break;
+    case 21: snprintf(name, n, "_"); break;
+    case 22: name[0] = 0; break;
+    case 23: memset(name, 'L', 200); name[200] = 0; break;
+    case 24: snprintf(name, n, "__session"); break;
+    case 25: snprintf(name, n, "__"); break;
+    case 26: snprintf(name, n, "__GC2"); break;
+    case 27: snprintf(name, n, "__Exceptions"); break;
+    case 28: snprintf(name, n, "__G"); break;
+    case 29: snprintf(name, n, "key with spaces / and %%s"); break;
+    default: snprintf(name, n, "k%ld", slot);
+  }
+}
+
 static void __attribute__((noinline)) op_tls(int add, long slot, long t) {
-  char name[32]; snprintf(name, sizeof name, "k%ld", slot);
+  char name[256]; tls_name(slot, name, sizeof name);
   if (add) set(current(Thread), $S(name), nptr(t));
   else rem(current(Thread), $S(name));
 }
@@ -429,6 +486,10 @@ static void __attribute__((noinline)) exec_tok(char* tok, int* nobs) {
     case 'N': { long id = strtol(tok + 1, &e, 10); char k = *e; int root = e[1] == '!';
       op_new(id, k, root); break; }
     case 'C': { long id = strtol(tok + 1, &e, 10); long src = strtol(e + 1, &e, 10); op_copy(id, src); break; }
+    case 'V': { long id = strtol(tok + 1, &e, 10); char k = *e; long a = 0, b = 0;
+      if (e[1] == '=') { a = strtol(e + 2, &e, 10); if (*e == ',') b = strtol(e + 1, &e, 10); }
+      op_view(id, k, a, b); break; }
+    case 'O': { long id = strtol(tok + 1, &e, 10); op_use(id); break; }
     case 'L': { long first = strtol(tok + 1, &e, 10); long n = strtol(e + 1, &e, 10); char k = e[1]; long tail = strtol(e + 3, &e, 10);
       op_chain(first, n, k, tail); break; }
     case 'B': { long c = strtol(tok + 1, &e, 10); char m = e[1]; long n = strtol(e + 3, &e, 10); long first = strtol(e + 1, &e, 10);
@@ -467,6 +528,7 @@ static void one_case_body(char* line) {
   for (char* s = line; *s; s++) {
     if (*s == 'N' || *s == 'C') { long v = strtol(s + 1, NULL, 10); if (v > mx) mx = v; }
     if (*s == 'L' && s[1] >= '0' && s[1] <= '9') { char* q; long f = strtol(s + 1, &q, 10); long n = strtol(q + 1, &q, 10); if (f + n > mx) mx = f + n; }
+    if (*s == 'V' && s[1] >= '0' && s[1] <= '9') { long v = strtol(s + 1, NULL, 10) + 2; if (v > mx) mx = v; }
     if (*s == 'B') { char* q; strtol(s + 1, &q, 10); long n = strtol(q + 3, &q, 10); long f = strtol(q + 1, &q, 10);
                      if (f + n > mx) mx = f + n; }
     if (*s == '=' ) { long v = strtol(s + 1, NULL, 10); if (v > mx) mx = v; }      /* late ids of Q */
